@@ -856,6 +856,13 @@ fn gen_history(rng: &mut Rng, profile: &str, maxlen: u64) -> Vec<Op> {
         if ops.len() < warm {
             c = 0;
         }
+        // referring to a handle / iterator that does not exist is mostly a wasted operation
+        if nh == 0 && (2..=4).contains(&c) && rng.chance(5, 6) {
+            c = 0;
+        }
+        if ni == 0 && (8..=9).contains(&c) && rng.chance(5, 6) {
+            c = 7;
+        }
         let idx = |rng: &mut Rng, n: usize| -> usize {
             if n == 0 || rng.chance(1, 30) { n + rng.below(3) as usize } else if rng.chance(1, 2) { n - 1 - rng.below(n.min(4) as u64) as usize } else { rng.below(n as u64) as usize }
         };
